@@ -133,11 +133,26 @@ def random_history(rng, nprogs, length):
     return ops
 
 
-def run_real(ol, progs, ops):
+def churn(cmod):
+    """not an action of the history: short-lived option objects with non-default values are created and freed
+    (their addresses become available again); a pure API cannot notice"""
+    import gc
+    tmp = []
+    for i in range(40):
+        c = cmod.Configs()
+        c.unparser = "oneliner"; c.expr_wrapper = "list"; c.if_style = "short_circuit"
+        tmp.append(c)
+    del tmp, c
+    gc.collect()
+
+
+def run_real(ol, progs, ops, with_churn=False):
     cmod = sys.modules["oneliner.config"]
     objs = []
     outs = []
     for op in ops:
+        if with_churn and op[0] in ("new", "convertDefault", "convert"):
+            churn(cmod)
         if op[0] == "new":
             objs.append(cmod.Configs()); outs.append("none")
         elif op[0] == "set":
@@ -170,12 +185,15 @@ def main(argv):
         ck.broken.append("lean: OlVerif.Props.C10 does not build (the probed storage kind of option values makes the purity theorems false, or the model changed): " + b["log"][-1200:])
     else:
         ck.audit("OlVerif/Audit/C10.lean")
-    nprogs = 6 if ck.tier == "quick" else 24
+    nprogs = 8 if ck.tier == "quick" else 24
     progs = [gen_prog.gen_program(ck.rng, size=ck.rng.randrange(3, 9))[0] for _ in range(nprogs)]
     progs[1] = "for i in [1, 2, 3]:\n    if i == 2:\n        break\n    print(i)\nelse:\n    print('no')\n"
     progs[2] = "n = 2\nwhile n:\n    n -= 1\nimport math\nprint(math.floor(2.5))\n"
     progs[3] = "def g():\n    for j in range(3):\n        if j:\n            return j\nclass K:\n    a = 1\nprint(g(), K.a)\n"
     progs[4] = "x = 1\ny = 2\nprint(x + y)\n"
+    # the same string contents in different quoting contexts (inside an f-string field, plain, with the other quote)
+    progs[5] = 'a = f"""{len("it\'s")}{len(\'say "hi"\')}"""\nprint(a)\n'
+    progs[6] = 'msg = "it\'s"\nq = \'say "hi"\'\nprint(msg, q, f"{msg!r:>8}")\n'
     progs[0] = "def f(alpha, beta, gamma, delta):\n    def g():\n        return alpha, beta, gamma, delta\n    return g\nprint(f(1, 2, 3, 4)())\n"
     try:
         F = fresh_table(progs, per_conversion=(ck.tier == "thorough"))
@@ -190,7 +208,7 @@ def main(argv):
     k_bad = []
     saved_state = random.getstate()
     # every history starts in its own forked process: a fresh copy of the just-imported package
-    reals = par.pmap_isolated(lambda h: run_real(ol, progs, h), hists)
+    reals = par.pmap_isolated(lambda ih: run_real(ol, progs, ih[1], with_churn=(ih[0] % 2 == 1)), list(enumerate(hists)))
     for hi, h in enumerate(hists):
         real = reals[hi]
         ck.case(json.dumps(h), nontrivial=sum(1 for o in h if o[0] in ("set", "convert")) >= 2)
@@ -250,7 +268,7 @@ def main(argv):
         rule="random histories (length 1-8) over {new, set (legal and illegal values, existing and missing objects), convert, convertDefault, reseed} on a pool of "
              "generated programs; every conversion compared (after first-occurrence renaming of __ol_ names) with the same call made in a fresh interpreter "
              "process (quick: one fresh process for the whole table with a random hash seed; thorough: one per program); distinct by history; "
-             "non-trivial = at least two set/convert actions; plus every statement form of harness/forms.py at 5 placements converted in three fresh processes "
+             "non-trivial = at least two set/convert actions; every second history runs with short-lived option objects created and freed before each action; plus every statement form of harness/forms.py at 5 placements converted in three fresh processes "
              "that differ only in PYTHONHASHSEED",
         extra={"R_failures": len(failing) + len(det_fails), "K_disagreements": len(k_bad), "histories": len(hists), "programs": nprogs},
         assumptions=["F(p, opts) itself (the conversion) is modelled elsewhere (M-LOWER); here it is the fresh-process result"])
